@@ -122,7 +122,7 @@ func genDgehrd(g *vlib.G) {
 					if g.Stopped() {
 						return
 					}
-					g.Case(fmt.Sprintf("Dgehrd n=%d ilo=%d ihi=%d fam=%s prof=%s lda=n+%d lwork=%s", c.n, c.ilo, c.ihi, f.name, c.p.name, ldx, lw), func(t *vlib.T) {
+					kase(g, fmt.Sprintf("Dgehrd n=%d ilo=%d ihi=%d fam=%s prof=%s lda=n+%d lwork=%s", c.n, c.ilo, c.ihi, f.name, c.p.name, ldx, lw), func(t *vlib.T) {
 						runDgehrd(t, c.n, c.ilo, c.ihi, c.p, f, ldx, lw)
 						attributeBlocked(t, c.p, func(t *vlib.T, p prof) { runDgehrd(t, c.n, c.ilo, c.ihi, p, f, ldx, lw) })
 					})
@@ -405,7 +405,7 @@ func genDhseqr(g *vlib.G) {
 						if g.Stopped() {
 							return
 						}
-						g.Case(fmt.Sprintf("Dhseqr n=%d fam=%s bal=%c prof=%s ld=n+%d lwork=%s", c.n, f.name, bal, c.p.name, ldx, lw), func(t *vlib.T) {
+						kase(g, fmt.Sprintf("Dhseqr n=%d fam=%s bal=%c prof=%s ld=n+%d lwork=%s", c.n, f.name, bal, c.p.name, ldx, lw), func(t *vlib.T) {
 							runDhseqr(t, c.n, c.p, f, bal, ldx, lw)
 						})
 					}
@@ -588,7 +588,7 @@ func genDgeev(g *vlib.G) {
 					if g.Stopped() {
 						return
 					}
-					g.Case(fmt.Sprintf("Dgeev n=%d fam=%s prof=%s ld=+%d+%d+%d lwork=%s", c.n, f.name, c.p.name, ld[0], ld[1], ld[2], lw), func(t *vlib.T) {
+					kase(g, fmt.Sprintf("Dgeev n=%d fam=%s prof=%s ld=+%d+%d+%d lwork=%s", c.n, f.name, c.p.name, ld[0], ld[1], ld[2], lw), func(t *vlib.T) {
 						runDgeev(t, c.n, c.p, f, ld, lw)
 						attributeBlocked(t, c.p, func(t *vlib.T, p prof) { runDgeev(t, c.n, p, f, ld, lw) })
 					})
